@@ -259,7 +259,27 @@ def _enqueue_timeouts(case):
                 t.join()
 
     async def async_body():
-        for r in range(rounds):
+        running = True
+
+        async def staller():
+            # some other coroutine of the application hogs the loop for a few ms at a time: timers and notifications that become due
+            # during a stall are then processed back-to-back in one loop iteration (a legal schedule)
+            k = 0
+            while running:
+                time.sleep(0.0005 + 0.0005 * (k % 7))
+                k += 1
+                await asyncio.sleep(0 if k % 3 else 0.0007)
+
+        st_task = asyncio.ensure_future(staller()) if case['site'] else None
+        try:
+            await async_rounds()
+        finally:
+            running = False
+            if st_task:
+                await st_task
+
+    async def async_rounds():
+        for r in range(rounds * 2):
             if viol:
                 break
             hs = [asyncio.ensure_future(server.call(tok(50 + k, r, S), timeout=10, backpressure=False)) for k in range(cap)]
